@@ -1201,13 +1201,13 @@ var zzC03Qtypes = []uint16{dns.TypeA, dns.TypeAAAA, dns.TypeTXT, dns.TypeHTTPS, 
 // and / or by v with its allow list emptied or, if v has none, filled.  What
 // must be in force afterwards is v alone, as posted last.  It returns v's
 // concrete lists and the status of the last post.
-func zzC03Install(z *zzC03Srv, c *zzC03Conc, v *zzC03Vec, rng *rand.Rand) (cl [3][]string, code int, body string) {
+func zzC03Install(z *zzC03Srv, c *zzC03Conc, v *zzC03Vec, rng *rand.Rand) (cl [3][]string, hist [][3][]string, code int, body string) {
 	shuffle := func(x []string) {
 		rng.Shuffle(len(x), func(i, j int) { x[i], x[j] = x[j], x[i] })
 	}
 
-	hist := rng.Intn(6)
-	if hist == 3 || hist == 4 {
+	kind := rng.Intn(6)
+	if kind == 3 || kind == 4 {
 		// Allow list emptied / filled first.
 		al, dis, hosts := c.lists(v)
 		if len(al) > 0 {
@@ -1217,26 +1217,28 @@ func zzC03Install(z *zzC03Srv, c *zzC03Conc, v *zzC03Vec, rng *rand.Rand) (cl [3
 		}
 
 		_, _ = z.setAccess(al, dis, hosts)
+		hist = append(hist, [3][]string{al, dis, hosts})
 	}
 
-	if hist == 1 || hist == 2 || hist == 4 {
+	if kind == 1 || kind == 2 || kind == 4 {
 		c.flipIDs = true
 		al, dis, hosts := c.lists(v)
 		c.flipIDs = false
-		if hist == 2 {
+		if kind == 2 {
 			shuffle(al)
 			shuffle(dis)
 			shuffle(hosts)
 		}
 
 		_, _ = z.setAccess(al, dis, hosts)
+		hist = append(hist, [3][]string{al, dis, hosts})
 	}
 
 	al, dis, hosts := c.lists(v)
 	cl = [3][]string{al, dis, hosts}
 	code, body = z.setAccess(al, dis, hosts)
 
-	return cl, code, body
+	return cl, hist, code, body
 }
 var zzC03Spells = []string{"plain", "mixed", "upper", "nodot"}
 
@@ -1289,6 +1291,22 @@ type zzC03Rec struct {
 	w      *zzWriter
 	bySig  map[string]int
 	counts map[string]int
+
+	// hist are the posts that preceded the configuration under replay on this
+	// server, asked the requests made so far under it, by canonical name: both
+	// go into a disagreement's record so that it can be replayed as a history.
+	hist  [][3][]string
+	asked map[string][]zzC03Req
+}
+
+func zzC03CanonName(n string) (c string) { return strings.ToLower(strings.TrimSuffix(n, ".")) }
+
+// note remembers a request made under the current configuration.
+func (rec *zzC03Rec) note(r *zzC03Req) {
+	k := zzC03CanonName(r.Name)
+	if len(rec.asked[k]) < 6 {
+		rec.asked[k] = append(rec.asked[k], *r)
+	}
 }
 
 const zzC03MaxPerSig = 3
@@ -1320,6 +1338,7 @@ func (rec *zzC03Rec) bad(level string, v *zzC03Vec, c [3][]string, ar *zzC03AReq
 		"cfg":  map[string]any{"allowed": v.Allowed, "disallowed": v.Disallowed, "hosts": v.Hosts},
 		"conc": map[string]any{"allowed": c[0], "disallowed": c[1], "hosts": c[2]},
 		"areq": ar, "req": r, "want": want, "got": got,
+		"history": rec.hist, "before": rec.asked[zzC03CanonName(r.Name)],
 	}
 	for k, x := range extra {
 		row[k] = x
@@ -1334,7 +1353,8 @@ func zzC03QtypeName(qt uint16) (s string) { return dns.TypeToString[qt] }
 // full selects every transport for every decision instead of a seeded one.
 func zzC03Sweep(z *zzC03Srv, u, v *zzC03Vec, rng *rand.Rand, full bool, rec *zzC03Rec) {
 	c := zzC03NewConc(rng, len(u.Addrs[0].Bits), false)
-	cl, code, body := zzC03Install(z, c, v, rng)
+	cl, hist, code, body := zzC03Install(z, c, v, rng)
+	rec.hist, rec.asked = hist, map[string][]zzC03Req{}
 	if code != http.StatusOK {
 		rec.bad("set", v, cl, &zzC03AReq{Form: "plain"}, &zzC03Req{}, []string{"200"}, fmt.Sprintf("%d", code), map[string]any{"body": body})
 
@@ -1365,6 +1385,8 @@ func zzC03Sweep(z *zzC03Srv, u, v *zzC03Vec, rng *rand.Rand, full bool, rec *zzC
 		got := z.handle(r)
 		moved := z.obs.snap() != obs0
 		if zzC03In(want, got) && !moved {
+			rec.note(r)
+
 			return
 		}
 
@@ -1539,6 +1561,8 @@ func zzC03Probe(z *zzC03Srv, v *zzC03Vec, cl [3][]string, c *zzC03Conc, rng *ran
 
 	okObs := strings.HasPrefix(got, "other") || d == zzC03Snap{Up: eff, Filt: eff, Qlog: eff, Stats: eff}
 	if zzC03In(want, got) && okObs {
+		rec.note(r)
+
 		return got
 	}
 
@@ -1583,7 +1607,8 @@ func zzC03Probe(z *zzC03Srv, v *zzC03Vec, cl [3][]string, c *zzC03Conc, rng *ran
 // transports.  The IPv4 universe is placed under 127.0.7.0/24.
 func zzC03Transports(z *zzC03Srv, u, v *zzC03Vec, rng *rand.Rand, rec *zzC03Rec) {
 	c := zzC03NewConc(rng, len(u.Addrs[0].Bits), true)
-	cl, code, body := zzC03Install(z, c, v, rng)
+	cl, hist, code, body := zzC03Install(z, c, v, rng)
+	rec.hist, rec.asked = hist, map[string][]zzC03Req{}
 	if code != http.StatusOK {
 		rec.bad("set", v, cl, &zzC03AReq{Form: "plain"}, &zzC03Req{}, []string{"200"}, fmt.Sprintf("%d", code), map[string]any{"body": body})
 
@@ -1883,12 +1908,17 @@ func zzC03RandLists(rng *rand.Rand, w int) (v *zzC03Vec) {
 			fam := []string{"v4", "v4", "v6"}[rng.Intn(3)]
 			switch rng.Intn(6) {
 			case 0, 1:
-				e = zzC03Entry{K: "ip", Fam: fam, Bits: zzC03RandBits(rng, w)}
+				e = zzC03Entry{K: "ip", Fam: fam, Bits: zzC03RandBits(rng, w), Sp: "lower"}
 			case 2, 3, 4:
 				// Real-looking CIDR mix: every prefix length, short ones too.
-				e = zzC03Entry{K: "cidr", Fam: fam, Bits: zzC03RandBits(rng, rng.Intn(w+1))}
+				e = zzC03Entry{K: "cidr", Fam: fam, Bits: zzC03RandBits(rng, rng.Intn(w+1)), Sp: "lower"}
 			default:
-				e = zzC03Entry{K: "id", Bits: []int{}, ID: zzC03BIDs[rng.Intn(len(zzC03BIDs))]}
+				e = zzC03Entry{K: "id", Bits: []int{}, ID: zzC03BIDs[rng.Intn(len(zzC03BIDs))], Sp: "lower"}
+				if rng.Intn(3) == 0 {
+					// Written in another letter case: the spec leaves open
+					// whether it names the ClientID.
+					e.Sp = "mixed"
+				}
 			}
 
 			if k := zzC03EntryKey(e); !used[k] {
@@ -1923,9 +1953,70 @@ func zzC03RandLists(rng *rand.Rand, w int) (v *zzC03Vec) {
 		}
 
 		p := zzC03Pat{K: []string{"exact", "domain", "wild"}[rng.Intn(3)], N: nm}
+		if p.K != "exact" && rng.Intn(3) == 0 {
+			// A rule restricted to one query type.
+			p.Qt = zzC03QtypeName(zzC03Qtypes[rng.Intn(len(zzC03Qtypes))])
+			if rng.Intn(5) == 0 {
+				p.K, p.N = "all", []string{}
+			}
+		}
+
 		if k := fmt.Sprint(p); !seen[k] {
 			seen[k] = true
 			v.Hosts = append(v.Hosts, p)
+		}
+	}
+
+	return v
+}
+
+// zzC03Derive returns a configuration that follows prev in a history of
+// installations: the same lists with the ClientID entries in the other letter
+// case (same order or shuffled), or prev with its allow list emptied / filled.
+func zzC03Derive(rng *rand.Rand, prev *zzC03Vec, w int) (v *zzC03Vec) {
+	v = &zzC03Vec{Kind: "set", Universe: "trace"}
+	v.Allowed = append([]zzC03Entry{}, prev.Allowed...)
+	v.Disallowed = append([]zzC03Entry{}, prev.Disallowed...)
+	v.Hosts = append([]zzC03Pat{}, prev.Hosts...)
+	flip := func(es []zzC03Entry) {
+		for i := range es {
+			if es[i].K == "id" {
+				es[i].Sp = map[string]string{"lower": "mixed", "mixed": "lower"}[es[i].Sp]
+			}
+		}
+	}
+
+	switch rng.Intn(4) {
+	case 0, 3:
+		// Case only: same entries, same order.
+		flip(v.Allowed)
+		flip(v.Disallowed)
+	case 1:
+		flip(v.Allowed)
+		flip(v.Disallowed)
+		rng.Shuffle(len(v.Allowed), func(i, j int) { v.Allowed[i], v.Allowed[j] = v.Allowed[j], v.Allowed[i] })
+		rng.Shuffle(len(v.Disallowed), func(i, j int) { v.Disallowed[i], v.Disallowed[j] = v.Disallowed[j], v.Disallowed[i] })
+		rng.Shuffle(len(v.Hosts), func(i, j int) { v.Hosts[i], v.Hosts[j] = v.Hosts[j], v.Hosts[i] })
+	default:
+		if len(v.Allowed) > 0 {
+			v.Allowed = []zzC03Entry{}
+		} else {
+			used := map[string]bool{}
+			for _, e := range v.Disallowed {
+				used[zzC03EntryKey(e)] = true
+			}
+
+			for len(v.Allowed) < 2 {
+				e := zzC03Entry{K: "ip", Fam: "v4", Bits: zzC03RandBits(rng, w), Sp: "lower"}
+				if rng.Intn(2) == 0 {
+					e = zzC03Entry{K: "id", Bits: []int{}, ID: zzC03BIDs[rng.Intn(len(zzC03BIDs))], Sp: "lower"}
+				}
+
+				if k := zzC03EntryKey(e); !used[k] {
+					used[k] = true
+					v.Allowed = append(v.Allowed, e)
+				}
+			}
 		}
 	}
 
@@ -1973,9 +2064,14 @@ func zzC03RandReq(rng *rand.Rand, v *zzC03Vec, w int, protos []string) (ar *zzC0
 
 	ar.IDCase = []string{"plain", "mixed", "upper"}[rng.Intn(3)]
 	ar.Name = zzC03RandName(rng)
+	qt := ""
 	if len(v.Hosts) > 0 && rng.Intn(3) > 0 {
 		p := v.Hosts[rng.Intn(len(v.Hosts))]
-		ar.Name = append([]string{}, p.N...)
+		qt = p.Qt
+		if len(p.N) > 0 {
+			ar.Name = append([]string{}, p.N...)
+		}
+
 		switch rng.Intn(5) {
 		case 0:
 			ar.Name = append([]string{zzC03BLabels[rng.Intn(len(zzC03BLabels))]}, ar.Name...)
@@ -1991,6 +2087,9 @@ func zzC03RandReq(rng *rand.Rand, v *zzC03Vec, w int, protos []string) (ar *zzC0
 
 	ar.Spell = zzC03Spells[rng.Intn(len(zzC03Spells))]
 	ar.Qtype = zzC03QtypeName(zzC03Qtypes[rng.Intn(len(zzC03Qtypes))])
+	if qt != "" && rng.Intn(2) == 0 {
+		ar.Qtype = qt
+	}
 
 	return ar
 }
@@ -2014,6 +2113,9 @@ func TestZZVerifC03Trace(t *testing.T) {
 	zh := zzC03NewSrv(t, false)
 	zt := zzC03NewSrv(t, true)
 
+	// Last configuration installed on each of the two servers.
+	prevV, prevC := map[bool]*zzC03Vec{}, map[bool]*zzC03Conc{}
+	var prevReq *zzC03AReq
 	for si := 0; si < sets; si++ {
 		sock := si%5 == 4
 		z := zh
@@ -2024,6 +2126,12 @@ func TestZZVerifC03Trace(t *testing.T) {
 		v := zzC03RandLists(rng, width)
 		c := zzC03NewConc(rng, width, sock)
 		c.labels, c.ids = nil, nil
+		if prevV[sock] != nil && rng.Intn(5) < 2 {
+			// Continue the history of the same lists on the same server.
+			v, c = zzC03Derive(rng, prevV[sock], width), prevC[sock]
+		}
+
+		prevV[sock], prevC[sock] = v, c
 		allowed, disallowed, hosts := c.lists(v)
 		code, body := z.setAccess(allowed, disallowed, hosts)
 		if code != http.StatusOK {
@@ -2031,7 +2139,8 @@ func TestZZVerifC03Trace(t *testing.T) {
 		}
 
 		w.put(map[string]any{
-			"k": "set", "allowed": v.Allowed, "disallowed": v.Disallowed, "hosts": v.Hosts,
+			"k": "set", "lvl": map[bool]string{false: "handler", true: "transport"}[sock],
+			"allowed": v.Allowed, "disallowed": v.Disallowed, "hosts": v.Hosts,
 			"conc": map[string]any{"allowed": allowed, "disallowed": disallowed, "hosts": hosts},
 		})
 
@@ -2044,6 +2153,16 @@ func TestZZVerifC03Trace(t *testing.T) {
 
 		for i := 0; i < n; i++ {
 			ar := zzC03RandReq(rng, v, width, protos)
+			if prevReq != nil && rng.Intn(3) == 0 {
+				// The same name again, with another query type: the answer
+				// must not depend on what was asked before.
+				ar.Name = prevReq.Name
+				if rng.Intn(2) == 0 {
+					ar.Addr, ar.Form = prevReq.Addr, prevReq.Form
+				}
+			}
+
+			prevReq = ar
 			if sock && ar.Proto != "https" {
 				if ar.Addr.Fam == "v6" {
 					ar.Proto = "https"
@@ -2120,6 +2239,11 @@ type zzC03One struct {
 		Hosts      []string `json:"hosts"`
 	} `json:"conc"`
 	Req zzC03Req `json:"req"`
+
+	// History are earlier posts on the same server, Before earlier requests
+	// under the last configuration (run at handler level).
+	History [][3][]string `json:"history"`
+	Before  []zzC03Req    `json:"before"`
 }
 
 // TestZZVerifC03One re-executes stored concrete steps alone, each on a fresh
@@ -2155,7 +2279,20 @@ func TestZZVerifC03One(t *testing.T) {
 			z = zzC03NewSrv(t, false)
 		}
 
+		for _, h := range one.History {
+			_, _ = z.setAccess(h[0], h[1], h[2])
+		}
+
 		code, body := z.setAccess(one.Conc.Allowed, one.Conc.Disallowed, one.Conc.Hosts)
+		if code == http.StatusOK {
+			for i := range one.Before {
+				b := one.Before[i]
+				if b.Addr != "" {
+					_ = z.handle(&b)
+				}
+			}
+		}
+
 		if code != http.StatusOK {
 			row["out"] = fmt.Sprintf("set:%d:%s", code, body)
 			w.put(row)
